@@ -39,7 +39,7 @@ for mid, r in sorted(res.items()):
         'needs': notes.get('needs'),
         'files': notes.get('files'),
         'confirmed_by_me': {
-            'how': 'tools/confirm_mutant.sh in a scratch worktree of /repo HEAD: patch applies; `cargo test --workspace --no-fail-fast --offline` passes with the patch; the demonstration fails with the patch and passes without it',
+            'how': 'tools/confirm_mutant.sh in a scratch worktree of /repo ' + r.get('confirm_base', 'HEAD') + ': patch applies; `cargo test --workspace --no-fail-fast --offline` passes with the patch; the demonstration fails with the patch and passes without it',
             'confirmed': confirmed,
             'log_tail': verdict_lines,
         },
